@@ -28,7 +28,9 @@ CONSTANTS Workers,      \* e.g. {"w0", "w1"}
           GStrictBefore, GEstBlocks, GValEst, GValVersion, GValStorage, GTsBeforeScan, GRewindNew,
           GRewindConflict, GMarkEstimate, GRemoveStale, GFinStatus, GFinCursor, GFinTs, GFinCarry,
           GCommitOrder, GHeadOnly, GNotifyFin, GNotifyCom, GNotifyBatch, GNotifyCancel, GKeyLive,
-          GCommitRelease, GFallbackStart
+          GCommitRelease, GFallbackStart,
+          GHeadAtStart  \* the commit-head test of a failed attempt uses the boundary sampled when the
+                        \* attempt started (the "fix:" for finding F2); FALSE = sampled when the error is handled
 
 VARIABLES block, status, inc, hint, txLock, result, mv, onboard, dep, affects, execIdx,
           valIdx, finIdx, comIdx, executed, clock, lowerTs, unconfTs,
@@ -336,7 +338,7 @@ Prog(i) == block.progs[i + 1]
 StartExec(w, i) ==   \* locals of a fresh attempt, advanced to its first shared read
   LET c == IF TraceMode THEN [ip |-> 1, regs |-> ZeroRegs, wbuf |-> EmptyW, st |-> "read"]
            ELSE RunLocal(Prog(i), 1, ZeroRegs, EmptyW) IN
-  [loc[w] EXCEPT !.ip = c.ip, !.regs = c.regs, !.wbuf = c.wbuf, !.st = c.st,
+  [loc[w] EXCEPT !.ip = c.ip, !.regs = c.regs, !.wbuf = c.wbuf, !.st = c.st, !.c = comIdx,
                  !.rs = [l \in Locs |-> NoVer], !.rv = [l \in Locs |-> 0], !.blockers = {},
                  !.topub = IF c.st = "ok" THEN {l \in Locs : c.wbuf[l] # NoW} ELSE {}, !.pubd = {},
                  !.conflict = FALSE, !.newloc = FALSE, !.next = -1]
@@ -477,7 +479,7 @@ D_Remove(w) ==       \* remove(tx, true) after a clean execution
 E_HeadCheck(w) ==    \* an error with no unresolved predecessor: fatal / fallback only at the commit head
   /\ pc[w] = "e_headcheck"
   /\ result' = StoreResult(w)
-  /\ IF comIdx = loc[w].tx \/ ~GHeadOnly
+  /\ IF (IF GHeadAtStart THEN loc[w].c ELSE comIdx) = loc[w].tx \/ ~GHeadOnly
      THEN /\ loc' = [loc EXCEPT ![w].reason = IF loc[w].kind = "invalid" THEN "fallback" ELSE "fatal",
                                 ![w].atx = loc[w].tx, ![w].ret = "d_keytx"]
           /\ Goto(w, "a_abort")
@@ -765,8 +767,18 @@ C_FinLoad ==
 C_Take ==    \* take the finalized result; a missing or failed one is a scheduler inconsistency
   /\ pc["com"] = "c_take"
   /\ IF result[C].has /\ result[C].kind = "ok"
-     THEN Goto("com", "c_apply") /\ UNCHANGED loc
+     THEN Goto("com", IF TraceMode THEN "c_nonce" ELSE "c_apply") /\ UNCHANGED loc
      ELSE Goto("com", "a_abort") /\ loc' = [loc EXCEPT !["com"].reason = "parallel", !["com"].atx = C, !["com"].ret = "done"]
+  /\ UNCHANGED <<block, status, inc, hint, txLock, result, mv, onboard, dep, affects, execIdx, valIdx,
+                 finIdx, comIdx, executed, clock, lowerTs, unconfTs, abort, abortReason, abortTx, slot,
+                 cstate, outcomes, returned>>
+
+(* commit-time nonce re-check against the committed state (ordered_commit.rs:115-143). Account
+   nonces are not part of the model-checking programs; in trace mode the verdict is the record's. *)
+C_Nonce(ok) ==
+  /\ pc["com"] = "c_nonce"
+  /\ IF ok THEN Goto("com", "c_apply") /\ UNCHANGED loc
+     ELSE Goto("com", "a_abort") /\ loc' = [loc EXCEPT !["com"].reason = "fallback", !["com"].atx = -1, !["com"].ret = "done"]
   /\ UNCHANGED <<block, status, inc, hint, txLock, result, mv, onboard, dep, affects, execIdx, valIdx,
                  finIdx, comIdx, executed, clock, lowerTs, unconfTs, abort, abortReason, abortTx, slot,
                  cstate, outcomes, returned>>
@@ -826,7 +838,7 @@ WStep(w) ==
   \/ E_End(w) \/ V_Begin(w) \/ V_Ts(w) \/ (\E l \in Locs : V_Scan(w, l)) \/ T_Unconf(w)
   \/ V_End(w) \/ V_Notify(w) \/ A_Abort(w) \/ A_Cancel(w) \/ N_Notify(w)
 FStep == N_RegisterFin \/ F_Loop \/ F_ValLoad \/ F_Lock \/ F_Decide \/ F_Publish \/ F_Pred \/ N_ParkFin \/ N_Notify("fin")
-CStep == N_RegisterCom \/ C_Loop \/ C_FinLoad \/ C_Take \/ C_Apply \/ C_Publish \/ D_Commit \/ C_Pred \/ N_ParkCom
+CStep == N_RegisterCom \/ C_Loop \/ C_FinLoad \/ C_Take \/ C_Nonce(TRUE) \/ C_Nonce(FALSE) \/ C_Apply \/ C_Publish \/ D_Commit \/ C_Pred \/ N_ParkCom
          \/ A_Abort("com") \/ A_Cancel("com") \/ N_Notify("com")
 MStep == M_Start \/ M_Join \/ S_Tx
 
